@@ -13,6 +13,7 @@ use crate::util::*;
 use num_bigint::BigUint;
 use num_traits::{One, Zero};
 use prio::codec::{Encode, ParameterizedDecode};
+use prio::vdaf::{Aggregator, VerifyTransition};
 use prio::field::{Field255, Field64};
 use prio::idpf::{Idpf, IdpfOutputShare, NoCache};
 use prio::vdaf::poplar1::{Poplar1, Poplar1AggregationParam, Poplar1IdpfValue, Poplar1PublicShare};
@@ -110,7 +111,7 @@ pub fn case_strategy(deep: bool) -> BoxedStrategy<Case> {
         3 => (seed_strategy(), prop::collection::vec(prop_oneof![4 => (region_strategy(), crate::c02::valsel()).prop_map(|(region, delta)| Op::AddDelta { region, delta }), 1 => (region_strategy(), any::<u16>()).prop_map(|(region, bit)| Op::FlipBit { region, bit })], 1..=3)).prop_map(|(rand_seed, ops)| Mode::Alter { rand_seed, ops }),
         2 => (programmed(), programmed(), prop_oneof![3 => Just(crate::c02::ValSel::Zero), 1 => crate::c02::valsel()], prop_oneof![3 => Just(crate::c02::ValSel::Zero), 1 => crate::c02::valsel()], any::<u64>(), prop::bool::weighted(0.8)).prop_map(|(queried, others, a_off, b_off, corr_seed_seed, honest_ab)| Mode::Build { queried, others, a_off, b_off, corr_seed_seed, honest_ab }),
     ];
-    (bits, any::<bool>(), ctx_strategy(), any::<u64>(), seed_strategy(), any::<u64>(), any::<u16>(), prop::collection::vec((any::<u8>(), any::<u16>(), any::<u64>()), 1..=6), mode)
+    (bits, any::<bool>(), ctx_strategy(), any::<u64>(), seed_strategy(), any::<u64>(), any::<u16>(), prop_oneof![6 => prop::collection::vec((any::<u8>(), any::<u16>(), any::<u64>()), 1..=6), 2 => prop::collection::vec((any::<u8>(), any::<u16>(), any::<u64>()), 7..=40), 1 => prop::collection::vec((any::<u8>(), any::<u16>(), any::<u64>()), 41..=150)], mode)
         .prop_map(|(bits, aes, ctx, key_seed, nonce_seed, input_seed, level, cands, mode)| {
             let input = Bits::from_seed(input_seed, bits);
             let level = idx16(level, bits);
@@ -548,6 +549,34 @@ fn run_generic<P: Xof<K> + 'static, F: FieldBig, const K: usize>(case: &Case, ob
             return;
         }
     }
+    // out-of-phase delivery: the (empty) round-two "done" message handed to a state that has not
+    // yet seen the sketch must never release an output share (typed API: the wire decoder would
+    // already refuse it)
+    {
+        use crate::codec::{pop_state, PopStateKind};
+        for kind in [PopStateKind::InnerR2, PopStateKind::LeafR2] {
+            if let Ok(done) = prio::vdaf::poplar1::Poplar1VerifierMessage::get_decoded_with_param(&pop_state(kind), &[]) {
+                for (j, st) in states.iter().enumerate() {
+                    let st = st.clone();
+                    match guard(|| vdaf.verify_next(&case.ctx.0, st, done.clone())) {
+                        Ok(Ok(VerifyTransition::Finish(_))) => {
+                            obs.fail("finished-without-sketch-check", format!("aggregator {j}: the round-two message delivered to the round-one state released an output share; the sketch was never verified"));
+                            return;
+                        }
+                        Ok(Ok(VerifyTransition::Continue(..))) => {
+                            obs.fail("continued-without-sketch-message", format!("aggregator {j}: the round-two message delivered to the round-one state advanced the state"));
+                            return;
+                        }
+                        Ok(Err(_)) => {}
+                        Err(pn) => {
+                            obs.fail(format!("verify-next-out-of-phase-{}", panic_sig(&pn)), format!("verify_next with an out-of-phase message panicked: {pn}"));
+                            return;
+                        }
+                    }
+                }
+            }
+        }
+    }
     // transit alterations of sketch shares
     let mut transit = 0usize;
     for j in 0..2usize {
@@ -671,6 +700,7 @@ fn run_generic<P: Xof<K> + 'static, F: FieldBig, const K: usize>(case: &Case, ob
 
     let total_alt = client_alterations + transit;
     obs.label(format!("alterations:{}", total_alt.min(3)));
+    obs.label(match model.x.len() { 0..=6 => "candidates:1-6", 7..=32 => "candidates:7-32", _ => "candidates:33+" });
     let honest_like = is_zero_or_onehot(&model.x);
     obs.label(if honest_like { "x:zero-or-onehot" } else { "x:malformed" });
     if leaf {
